@@ -12,7 +12,7 @@ ASSUMPTIONS = ["numpy on one row is the reference, incl. numpy's identity for an
                "values only (the statement does not fix the result dtype); means within 2 ulp of the result dtype",
                "float values are dyadic, so sums and products are exact whatever the summation order; no NaN"]
 REQUIRED_FEATURES = ["empty_row_first", "empty_row_last", "consecutive_empty_rows", "all_rows_empty", "zero_rows",
-                     "keepdims", "axis_none", "ufunc_reduce", "undefined_reference", "arg_reduction", "float_inf_pattern", "float_nan_pattern", "same_object_sequence", "integer_sum_beyond_64_bit"]
+                     "keepdims", "axis_none", "ufunc_reduce", "undefined_reference", "arg_reduction", "float_inf_pattern", "float_nan_pattern", "same_object_sequence", "integer_sum_beyond_64_bit", "product_wraps_to_zero"]
 BOUNDS = {"quick": "LV(4,3) x 9 dtypes x 2 patterns x {sum,prod,any,all,max,min,mean,argmax,argmin} x {method axis=-1, np.f axis=-1, "
                    "axis=1, keepdims, axis=None} + ufunc.reduce for add, multiply, logical_and/or/xor, bitwise_and/or/xor, maximum, minimum; value patterns cancel / +-inf / decimal / NaN; axis=1 spellings; same-object sequences of 13 reductions (contiguous and pending view); one 16-row array",
           "thorough": "LV(5,3) u LV(3,5), 3 patterns"}
@@ -64,6 +64,11 @@ def cases(shard, tier):
             for op in ("max", "min", "argmax", "argmin"):
                 for form in ("method", "func"):
                     yield [lens, dt, "dec", op, form]
+        if dt in ("int64", "float64"):
+            # all-nonzero rows whose PRODUCT is zero in the element type (65536**4 wraps, (2**-600)**2 underflows)
+            for op in ("all", "any", "prod"):
+                for form in ("method", "func"):
+                    yield [lens, dt, "zeroprod", op, form]
         if dt in ("int64", "uint64"):
             # equal powers of two: each row's SUM leaves the 64-bit range although every element and the mean fit (and the float64 reference is exact)
             for form in ("method", "func", "keepdims", "none"):
@@ -109,6 +114,9 @@ def check(case, acc):
     elif k == "inf":
         acc.feature("float_inf_pattern")
         flat = np.array(([1.5, float("inf"), 0.25, -2.0, 4.0, float("-inf"), 0.5, 3.0] * (size // 8 + 1))[:size], dtype=dt)
+    elif k == "zeroprod":
+        acc.feature("product_wraps_to_zero")
+        flat = np.full(size, 65536 if dt == "int64" else 2.0 ** -600, dtype=dt)
     elif k == "pow2":
         acc.feature("integer_sum_beyond_64_bit")
         flat = np.full(size, 2 ** 62 if dt == "int64" else 2 ** 63, dtype=dt)
